@@ -19,9 +19,11 @@ RULE = ("One constrained node per program (int / float with units, str, bool; sc
         "known by construction (never computed with re or the logical solver). Oracle: all satisfied -> parse() "
         "returns and the value equals the model; any violated -> parse() raises. Non-trivial: >=2 constraint kinds on "
         "the node, or an option/threshold in another unit, or a boundary (ON/NEAR) value. "
+        "Also: array values returned by a registered function; a !condition that refers to another node, with either node "
+        "assigned last, in the same text or in a second parse on top of the returned environment. "
         "Distinct = distinct rendered text.")
 ASSUMPTIONS = [
-    "values stay in [0.1, 1e4] and are never inside [0.3,3]x the library's 1e-6 comparison tolerance of a threshold",
+    "values stay in [0.1, 1e4] (plus a few of 1e-7..1e-10) and are never inside [0.3,3]x the library's 1e-6 relative comparison tolerance of a threshold",
     "strict < > and != are not probed at exact equality reached through a unit conversion (decided by float rounding)",
     "formats are anchored with ^...$ (re.match only anchors the start)",
 ]
@@ -58,7 +60,8 @@ def numeric_case(draw):
     if is_int:
         base = draw(st.integers(1, 5000))
     else:
-        base = draw(st.one_of(st.integers(1, 5000).map(float), st.floats(0.1, 1e4).map(lambda x: float(f"{x:.6g}"))))
+        base = draw(st.one_of(st.integers(1, 5000).map(float), st.floats(0.1, 1e4).map(lambda x: float(f"{x:.6g}")),
+                              st.sampled_from([3e-9, 4.5e-10, 2e-7])))      # tiny magnitudes: the tolerance is relative
     # per-line options and !options lists combine into ONE option set (documented), so they form one constraint
     kinds = draw(st.sets(st.sampled_from(["options", "condition"]), min_size=1, max_size=2))
     opt_form = draw(st.sampled_from(["lines", "list", "both"]))
@@ -73,6 +76,8 @@ def numeric_case(draw):
         if not dim or draw(st.booleans()):
             return (str(val) if is_int else fmt(val)), (unit if dim and draw(st.booleans()) else None), True
         u2 = draw(st.sampled_from(DIMS[dim]))
+        if u2 == unit:
+            return (str(val) if is_int else fmt(val)), u2, True      # no arithmetic on the way: the very same number
         v2 = val * F(unit) / F(u2)
         txt = fmt(v2)
         if is_int and float(v2) != int(v2):
@@ -231,7 +236,9 @@ def array_case(draw):
         dims = dims + [draw(st.sampled_from(["2", "1:", ":3", "2:4"]))]
         sat = False
     return {"kind": "array", "shape": shape, "dims": ",".join(dims), "expect_ok": sat, "via_mod": draw(st.booleans()),
-            "rank_short": short}
+            "rank_short": short,
+            # the value may also come from a registered function that returns a numpy array or a nested list
+            "via_fn": draw(st.sampled_from([None, None, "ndarray", "list"]))}
 
 
 @st.composite
@@ -270,10 +277,37 @@ def same_literal_case(draw):
             "which": draw(st.sampled_from([u1, u2]))}
 
 
+@st.composite
+def cross_node_case(draw):
+    """a condition that refers to ANOTHER node: the constraint must hold for the returned environment whichever of the
+    two nodes was assigned last, in the same text or in a later parse on top of the returned environment"""
+    dim = draw(st.sampled_from(sorted(DIMS)))
+    u, ul, u2 = (draw(st.sampled_from(DIMS[dim])) for _ in range(3))
+    size = draw(st.sampled_from([5.0, 1.0, 20.0, 0.5]))
+    op = draw(st.sampled_from(["<", "<=", ">", ">="]))
+    ok = draw(st.booleans())
+    # limit is written in unit ul / u2 such that size (op) limit is true at first and true/false at the end
+    above = op in ("<", "<=")
+    first = size * (2.0 if above else 0.5)
+    last = size * ((3.0 if above else 0.25) if ok else (0.5 if above else 2.0))
+    which = draw(st.sampled_from(["limit", "limit", "size"]))
+    conv = lambda val, uu: fmt(val * F(u) / F(uu))
+    lines = [f"limit float = {conv(first, ul)} {ul}", f"size float = {fmt(size)} {u}", f'  !condition ("{{?}} {op} {{?limit}}")']
+    if which == "limit":
+        change = f"limit = {conv(last, u2)} {u2}"
+    else:
+        # move size instead: beyond / within the unchanged limit
+        newsize = first * ((0.5 if above else 2.0) if ok else (2.0 if above else 0.5))
+        change = f"size = {conv(newsize, u2)} {u2}"
+    two_stage = draw(st.booleans())
+    return {"kind": "cross_node", "lines": lines, "change": change, "stage2": change if two_stage else None, "expect_ok": ok}
+
+
 def strategies(tier):
     return {"numeric": (numeric_case(), 2500, 60000), "string": (string_case(), 800, 20000), "bool": (bool_case(), 200, 4000),
             "array": (array_case(), 600, 12000), "declaration": (decl_case(), 150, 2000),
-            "imported": (imported_case(), 300, 6000), "same_literal": (same_literal_case(), 300, 6000)}
+            "imported": (imported_case(), 300, 6000), "same_literal": (same_literal_case(), 300, 6000),
+            "cross_node": (cross_node_case(), 400, 8000)}
 
 
 # --------------------------------------------------------------------------- rendering
@@ -349,7 +383,9 @@ def render(case):
             if len(shape) == 1:
                 return "[" + ",".join(str(start + i) for i in range(shape[0])) + "]"
             return "[" + ",".join(lit(shape[1:], start + 10 * i) for i in range(shape[0])) + "]"
-        if case["via_mod"]:
+        if case.get("via_fn"):
+            L.append(f"x int[{case['dims']}] = (make)")
+        elif case["via_mod"]:
             ok_dims = ",".join(":" for _ in case["shape"])
             L.append(f"x int[{case['dims']}]")
             L.append(f"x = {lit(case['shape'])}")
@@ -369,6 +405,10 @@ def render(case):
         else:
             L.append("copy {?*}")
             L.append(f"copy.g.x = {case['assign']}")
+    elif k == "cross_node":
+        L += case["lines"]
+        if not case["stage2"]:
+            L.append(case["change"])
     elif k == "same_literal":
         L.append(f"x float = {case['lit']} {case['unit']}")
         if case["form"] == "lines":
@@ -405,8 +445,16 @@ def _check(case, v):
     text = render(case)
     try:
         with DIP(name=f"c16_{next(_uid)}") as p:
+            if case.get("via_fn"):
+                import numpy as np
+                arr = np.arange(int(np.prod(case["shape"]))).reshape(case["shape"])
+                p.add_function("make", (lambda data: arr.copy()) if case["via_fn"] == "ndarray" else (lambda data: arr.tolist()))
             p.add_string(text)
             env = p.parse()
+            if case.get("stage2"):
+                with DIP(env, name=f"c16_{next(_uid)}") as p2:
+                    p2.add_string(case["stage2"])
+                    env = p2.parse()
         data = env.data(Format.TUPLE)
         raised = None
     except Exception as e:
@@ -419,7 +467,7 @@ def _check(case, v):
             got = got[0]
         got = D.to_py(got)
         k = case["kind"]
-        if k in ("imported", "same_literal"):
+        if k in ("imported", "same_literal", "cross_node"):
             pass
         elif k == "numeric":
             if not close(got, case["final"], 1e-9):
@@ -436,7 +484,7 @@ def _check(case, v):
                      (c["k"] == "options_list" and c["unit"] != case.get("unit")) or
                      (c["k"] == "condition" and any(cm["unit"] and cm["unit"] != case.get("unit") for cm in c["comps"]))
                      for c in case.get("cons", []))
-    v.nt(len(kinds) >= 2 or boundary or other_unit or case["kind"] in ("array", "imported", "same_literal"))
+    v.nt(len(kinds) >= 2 or boundary or other_unit or case["kind"] in ("array", "imported", "same_literal", "cross_node"))
     v.label(case["kind"], "accepted" if case["expect_ok"] else "rejected", *("con_" + k for k in kinds))
     if boundary:
         v.label("boundary")
@@ -449,4 +497,8 @@ def _check(case, v):
         v.label("int_vs_fractional_literal")
     if other_unit:
         v.label("other_unit")
+    if case.get("stage2"):
+        v.label("second_parse_on_returned_environment")
+    if case.get("via_fn"):
+        v.label("value_from_function_" + case["via_fn"])
     v.info = {"text": text}
